@@ -129,7 +129,9 @@ def standard_check(ctx, spec):
             found_input=False)
     # 7. evidence
     n = len(cases)
-    cov_fill(cov, n, len(distinct), n if model_out is not None else 0, spec.get('rule', ''))
+    skipped = sum(1 for mo in (model_out or []) if '(model-skipped' in mo or '(model-stack-overflow' in mo or '(model-timeout' in mo)
+    cov_fill(cov, n, len(distinct), (n - skipped) if model_out is not None else 0, spec.get('rule', ''))
+    cov['model_skipped'] = skipped
     cov['kinds'] = kinds
     cov['known_finding_hits'] = {k: len(v) for k, v in known_hits.items()}
     cov['disagreements'] = len(disagreements)
